@@ -275,11 +275,31 @@ class C17Executor(Executor):
     def _opaque_comp(self, n, st):
         if len(n.generators) == 1 and self._pure_comprehension(n):
             r = self.ev(n.generators[0].iter, st)
+            attrs = len(r) == 1 and isinstance(r[0][1], VExt) and r[0][1].sort == "AttrList"
             if len(r) == 1 and self.concrete_items(r[0][0], r[0][1]) is None and \
-                    (isinstance(r[0][1], VUnk) or self._ol(r[0][0], r[0][1]) is not None):
-                self.exc_any(r[0][0].fork(), f"{self.loc(n)} comprehension over an unknown iterable")
-                return [(r[0][0], VUnk("comprehension"))]
+                    (isinstance(r[0][1], VUnk) or attrs or self._ol(r[0][0], r[0][1]) is not None):
+                if not attrs or any(isinstance(x, ast.Call) for x in ast.walk(n)):
+                    self.exc_any(r[0][0].fork(), f"{self.loc(n)} comprehension over an unknown iterable")
+                return [(r[0][0], VUnk("attr-pairs" if attrs else "comprehension"))]
         return None
+
+    def construct(self, st, t, args, kwargs, node):
+        if t.name == "dict" and len(args) == 1 and not kwargs and \
+                ((isinstance(args[0], VUnk) and args[0].tag == "attr-pairs") or (isinstance(args[0], VExt) and args[0].sort in ("AttrList", "AttrDict"))):
+            return [(st, VExt("AttrDict"))]        # dict(<(name, value) pairs of the attribute list>): cannot raise
+        return super().construct(st, t, args, kwargs, node)
+
+    def call(self, st, f, args, kwargs, node):
+        from pyvc.values import VFunc
+        if isinstance(f, VFunc) and f.how == "repo" and f.a == self.module.rel and args and not kwargs \
+                and all(isinstance(a, VExt) and a.sort == "Tree" for a in args) and self.reg.get(f"{f.a}::{f.b}") is None:
+            # a module-level helper applied to the parser's tree only (e.g. a fallback renderer): summarised as an unknown
+            # function OF THE TREE -- whatever it returns cannot depend on the markup except through the parser
+            from contracts import C17_glue as G
+            fn = z3.Function("fn_of_tree:" + f.b, *([G.TreeS] * len(args) + [S]))
+            self.exc_any(st.fork(), f"{self.loc(node)} {f.b}(tree)")
+            return [(st, VStr(fn(*[a.t for a in args])))]
+        return super().call(st, f, args, kwargs, node)
 
     def e_GeneratorExp(self, n, st):
         return self._opaque_comp(n, st) or super().e_GeneratorExp(n, st)
@@ -310,6 +330,12 @@ class C17Executor(Executor):
                     self.on_yield(s, VUnk("yield-from"), n)
             out.append((s, NONE))
         return out
+
+    def get_attr(self, st, base, attr, node):
+        if isinstance(base, VExt) and base.sort == "MsgObj" and attr == "body":
+            from contracts import C17_glue as G
+            return G.msg_body(self, st, base)
+        return super().get_attr(st, base, attr, node)
 
     def havoc_call(self, st, what, args, node):
         for a in args:
@@ -665,6 +691,8 @@ def html_data_stored(c):
     """rho = None: the datum is appended to the text or the tail of exactly one node reachable from root."""
     ch = changes(c, skip_fields(HTML, HCLS, c.ex.module.repo))
     R = reach(c)
+    if R is not None and len(ch) == 0:
+        return c.args["data"].t == z3.StringVal("")        # nothing stored is right for the empty datum only
     if R is None or len(ch) != 1:
         return z3.BoolVal(False)
     ref, k, a, b = ch[0]
@@ -680,6 +708,8 @@ EPUB_SINKS = ("text_parts", "_current_cell", "_title")
 def epub_data_stored(c):
     """rho = None: the datum is appended to exactly one text sink (running text, current table cell, title)."""
     ch = changes(c, skip_fields(EPUB, ECLS, c.ex.module.repo))
+    if len(ch) == 0:
+        return c.args["data"].t == z3.StringVal("")        # nothing stored is right for the empty datum only
     if len(ch) != 1:
         return z3.BoolVal(False)
     ref, k, a, b = ch[0]
@@ -822,11 +852,12 @@ def looks_like_html_contract():
     return FnContract(
         target=f"{MSG}::_looks_like_html",
         params=[("text", P_STR)],
-        requires=req,
+        hyps=req,              # ground facts about the empty string (PY-STR / PY-RE), assumed -- not a precondition on callers
         ensures=[("hint-element-anywhere-in-the-body-is-recognised", imp(lambda c: HINT(c.args["text"].t))),
                  ("html-or-body-tag-anywhere-in-the-body-is-recognised",
                   imp(lambda c: z3.Or(STR_HAS(nb(c), z3.StringVal("<html")), STR_HAS(nb(c), z3.StringVal("<body"))))),
                  ("leading-doctype-is-recognised", imp(lambda c: STR_STARTS(nb(c), z3.StringVal("<!doctype"))))],
+        result_maker=lambda ex, st, ctx: VBool(_G.LLH(ctx.args["text"].t)) if isinstance(ctx.args.get("text"), VStr) else VBool(z3.Bool(fresh_name("llh"))),
         note="recognition of an HTML body does not depend on where in the body the evidence stands",
     )
 
@@ -839,6 +870,13 @@ def post_report(c, rep):
             if o["status"] == "refuted":
                 o["status"] = "unknown"
                 o["reason"] = "solver model interprets the uninterpreted regex / lstrip / lower functions: not a refutation by itself; " + (o.get("reason") or "")
+    if ("::" + HCLS + ".") in c.target or ("::" + ECLS + ".") in c.target:
+        # handler contracts: a refutation is definite only when no unmodelled call (EXC-ANY / havoc) was met on the way
+        if getattr(rep, "exc_any_sites", 0):
+            for o in rep.obligations:
+                if o["status"] == "refuted":
+                    o["status"] = "unknown"
+                    o["reason"] = f"{rep.exc_any_sites} unmodelled call(s) were over-approximated in this function: not a definite refutation; " + (o.get("reason") or "")
     if c.target in _G.TARGETS:
         for o in rep.obligations:
             if o["status"] == "refuted":
